@@ -248,8 +248,14 @@ def run_case(ctx, kind, rng, idx):
         hown = 'list-of-arrays'
     elif how == 1:
         srcs = np.concatenate(rows)
-        a = R(srcs, lengths=list(init_lens))
         hown = 'flat+lengths(copy)'
+        if rng.random() < 0.3:
+            big = np.zeros(2 * len(srcs), dtype=srcs.dtype)
+            big[1::2] = srcs
+            srcs = big[1::2]
+            hown = 'flat[strided]+lengths(copy)'
+        a = R(srcs, lengths=list(init_lens) if rng.random() < 0.5
+              else np.array(init_lens))
     else:
         a = R([r.tolist() for r in rows])
         hown = 'nested-lists'
